@@ -176,6 +176,14 @@ class _Norm:
             self.locdefs.pop(p, None)
         self._def_text: Dict = {}
         self._reaching: Dict = {}
+        # module-level `NAME = <number / string literal>` (not the enum-like names the engine compares by identity)
+        self.consts = {}
+        for st_ in f.module.tree.body:
+            if isinstance(st_, (ast.Assign, ast.AnnAssign)) and getattr(st_, "value", None) is not None and isinstance(st_.value, ast.Constant) \
+                    and isinstance(st_.value.value, (int, float, str)) and not isinstance(st_.value.value, bool):
+                tg_ = st_.targets[0] if isinstance(st_, ast.Assign) else st_.target
+                if isinstance(tg_, ast.Name) and tg_.id not in ("LOCAL", "REMOTE", "FILE", "DIRECTORY", "NOTKNOWN"):
+                    self.consts[tg_.id] = st_.value.value
         self.alias = {}
         for k, v in defs.items():
             if len(v) == 1 and v[0] is not None and k not in f.all_param_names():
@@ -305,6 +313,8 @@ class _Norm:
             def visit_Name(self, n):
                 if any(n.id in b for b in self.bound):
                     return ast.copy_location(ast.Name(id="ELEM", ctx=ast.Load()), n)
+                if isinstance(n.ctx, ast.Load) and n.id in me.consts and n.id not in me.locdefs:
+                    return ast.copy_location(ast.Constant(value=me.consts[n.id]), n)        # a named literal of the module is its value
                 if n.id in me.subst and isinstance(n.ctx, ast.Load):
                     t = self._tok(n) if n.id in me.side_names else None
                     return t if t is not None else ast.copy_location(ast.parse(ast.unparse(me.subst[n.id]), mode="eval").body, n)
@@ -564,9 +574,10 @@ def _sites_of(w, node, at):
             pos_ = _bound(ctx, w.f, c)
             argv = []
             for i_, a in enumerate(c.args):
-                argv.append("#%d=%s" % (i_, _val_text(w, a, at)))
+                if not _is_default(c, pos_, i_, a):
+                    argv.append("#%d=%s" % (i_, _val_text(w, a, at)))
             for k in c.keywords:
-                if k.arg:
+                if k.arg and not _is_default(c, pos_, k.arg, k.value):
                     argv.append("%s=%s" % ("#%d" % pos_.index(k.arg) if pos_ and k.arg in pos_ else k.arg, _val_text(w, k.value, at)))
             _note_value(w, sh, "(" + ", ".join(sorted(argv)) + ")")
     st = node
@@ -620,7 +631,10 @@ def _sites_of(w, node, at):
                         _note_value(w, shape, _val_text(w, st.value.body, st))
                         _note_value(w, shape, _val_text(w, st.value.orelse, st))
                     else:
-                        _note_value(w, shape, ("%s= " % type(st.op).__name__ if isinstance(st, ast.AugAssign) else "") + _val_text(w, st.value, st))
+                        if isinstance(st, ast.Assign) and isinstance(st.value, ast.BinOp) and ast.unparse(st.value.left) == ast.unparse(tg):
+                            _note_value(w, shape, "%s= " % type(st.value.op).__name__ + _val_text(w, st.value.right, st))      # `x = x + 1` is `x += 1`
+                        else:
+                            _note_value(w, shape, ("%s= " % type(st.op).__name__ if isinstance(st, ast.AugAssign) else "") + _val_text(w, st.value, st))
     return out
 
 
@@ -753,13 +767,39 @@ def _bound(ctx: Ctx, f, c0: ast.Call):
 
     sigs = {_params(g) for g in cands}
     if len(sigs) == 1:
+        _DEFAULTS[id(c0)] = _defaults_of(cands[0])
         return list(sigs.pop())
     return None
+
+
+_DEFAULTS: Dict[int, Dict[str, str]] = {}      # id(call) -> {parameter: text of its default} of the resolved callee
+
+
+def _defaults_of(g) -> Dict[str, str]:
+    a = g.node.args
+    pos = list(a.posonlyargs) + list(a.args)
+    out = {}
+    for p, d in zip(pos[len(pos) - len(a.defaults):], a.defaults):
+        out[p.arg] = ast.unparse(d)
+    for p, d in zip(a.kwonlyargs, a.kw_defaults):
+        if d is not None:
+            out[p.arg] = ast.unparse(d)
+    return out
+
+
+def _is_default(c0: ast.Call, pos, i_or_name, v) -> bool:
+    """the argument is a constant equal to the callee's default for that parameter: passing it or leaving it out is the same call"""
+    d = _DEFAULTS.get(id(c0))
+    if not d or pos is None or not isinstance(v, ast.Constant):
+        return False
+    name = pos[i_or_name] if isinstance(i_or_name, int) and i_or_name < len(pos) else i_or_name
+    return isinstance(name, str) and name in d and d[name] == ast.unparse(v)
 
 
 def _call_shape(c: ast.Call, nm: "_Norm" = None, ctx: Ctx = None, f=None) -> str:
     """receiver kind, method, which parameters are passed and the side / constant arguments: `self.update_entry(sync, synced, exists=True, oid=o)` is
     `self.update_entry(ent, side=OTHER0, exists=True, oid)`"""
+    c0 = c
     pos = _bound(ctx, f, c) if f is not None else None
     if nm is not None:
         c = nm.expr(c)
@@ -775,7 +815,8 @@ def _call_shape(c: ast.Call, nm: "_Norm" = None, ctx: Ctx = None, f=None) -> str
         return ""
     if pos is not None and not any(isinstance(x, ast.Starred) for x in c.args) and len(c.args) <= len(pos) and all(k.arg in pos for k in c.keywords) and not any(k.arg is None for k in c.keywords):
         # parameters by position in the callee's signature (names may be renamed); a keyword the callee does not declare (**kwargs) keeps its name
-        sides = sorted(["#%d%s" % (i, val(x)) for i, x in enumerate(c.args)] + ["%s%s" % ("#%d" % pos.index(k.arg) if k.arg in pos else k.arg, val(k.value)) for k in c.keywords])
+        sides = sorted(["#%d%s" % (i, val(x)) for i, x in enumerate(c.args) if not _is_default(c0, pos, i, c0.args[i])] +
+                       ["%s%s" % ("#%d" % pos.index(k.arg) if k.arg in pos else k.arg, val(k.value)) for k, k0 in zip(c.keywords, c0.keywords) if not _is_default(c0, pos, k.arg, k0.value)])
     else:
         sides = [a.id for a in c.args if isinstance(a, ast.Name) and _TOKEN.match(a.id)] + \
                 sorted("%s%s" % (k.arg, val(k.value)) for k in c.keywords if k.arg)
